@@ -15,7 +15,8 @@ LEVEL = {
             "Tie: every value-returning op × boundary/random pools, both overflow modes, with a range oracle on every crate result."),
     "C03": ("Theorems: try_new never panics and fails only with InvalidFormat (all byte strings); `parse` never panics for ANY type, picture bytes, text bytes and clock; `format` never panics for EVERY valid value of every type and ANY picture bytes (Props/C03Format); "
             "checked constructors, linear arithmetic, f64 scaling, add_days, binary and human-readable (de)serialisation never produce Panic. Trunc/round/month arithmetic no-panic follows from the closed forms of C09–C11 for valid receivers. "
-            "Tie: every op × pools, generated + byte-random pictures and inputs, all pictures up to length 3/4, blank runs to 1000, long pictures, on harness builds with overflow checks on AND off; any `panic` from the crate is a violation."),
+            "For the 80 translated functions of date.rs/time.rs/timestamp.rs/interval.rs/oracle.rs/common.rs additionally `Tr.f_safe`: no arithmetic node of the (mechanically translated) Rust body overflows its integer type and no table index is out of bounds, for all valid inputs (Lemmas/TranslatedSafe). "
+            "Tie: every op × pools, generated + byte-random pictures and inputs, all pictures up to length 3/4, blank runs to 1000, long pictures, long non-ASCII payloads, the Display route, band values around cast thresholds, on harness builds with overflow checks on AND off; any `panic` from the crate is a violation."),
     "C04": ("Theorems (complete on the model): every table the formatter indexes (regenerated from the Rust source each run) equals its arithmetic meaning; write_u32 = zero-padded decimal for every u32 and width; "
             "fraction = ⌊µs / 10^(6−p)⌋ (or ·10^(p−6)) through the soft-float for all µs and p ≤ 9; `format = Spec.render` field by field and END TO END from the picture text for every valid value of all six types and EVERY picture (error iff the picture does not compile or a token does not apply). "
             "Tie: all dates × 22 date tokens, all seconds × time tokens, all 10^6 µs × FF..FF9, random composite/long/inapplicable pictures; crate vs independent Lean renderer (`--spec`)."),
